@@ -61,7 +61,7 @@ where
             proof {
                 assert forall|i: int| 0 <= i < tv0.len() implies g.is_node(#[trigger] tv0[i]) && self.ready(g, tv0[i]) by { }
             }/*-*/
-            /*R:D11 for neigh in g.neighbors(nix) */ let mut __it = g.neighbors(nix); let ghost all = __it.remaining(); let ghost mut done: int = 0; proof { g.succ_law(nix); } loop
+            /*R:D11 for neigh in */ let mut __it = /*-*/ g.neighbors(nix) /*R:D11 */; let ghost all = __it.remaining(); let ghost mut done: int = 0; proof { g.succ_law(nix); } loop
                 invariant
                     __it.obeys_prophetic_iter_laws(), __it.decrease() is Some,
                     0 <= done <= all.len(), __it.remaining() == all.skip(done), all == g.succ(nix),
